@@ -13,18 +13,18 @@ Theorem C14_hasbits_spec : forall b l r,
 Proof. exact has_bits_in_spec. Qed.
 Print Assumptions C14_hasbits_spec.
 
-(* thm:C14_index_monotone. midToIndex lands inside the bitmask for EVERY uint64 (under/overflow
-   buckets included) and is monotone on the MIDs below 2^63 (int64(mid) conversion). *)
+(* thm:C14_index_monotone. midToIndex (as repaired by 6d376ea) lands inside the bitmask and is
+   monotone over ALL MIDs: a MID beyond int64 milliseconds goes to the overflow bucket. *)
 Theorem C14_index_monotone : forall d, dist_wf d ->
   (forall m, 0 <= mid_to_index d m < bm_size (d_mask d)) /\
-  (forall m1 m2, 0 <= m1 -> m1 <= m2 -> m2 < two63 -> mid_to_index d m1 <= mid_to_index d m2).
+  (forall m1 m2, 0 <= m1 -> m1 <= m2 -> mid_to_index d m1 <= mid_to_index d m2).
 Proof. intros d H. split; [intro m; exact (index_in_range d m H)|intros; apply index_monotone; assumption]. Qed.
 Print Assumptions C14_index_monotone.
 
 (* The occupancy map of ANY well-formed distribution (any window, any positive bucket) never hides
-   an added MID: a query interval that contains one intersects. *)
+   an added MID: a query interval that contains one intersects (no bound on MIDs or query ends). *)
 Theorem C14_occupancy_sound : forall d0 ms m qf qt,
-  dist_wf d0 -> In m ms -> 0 <= qf -> qf <= m -> m <= qt -> qt < two63 ->
+  dist_wf d0 -> In m ms -> 0 <= qf -> qf <= m -> m <= qt ->
   dist_is_intersecting (fold_left dist_add ms d0) qf qt = true.
 Proof. exact dist_intersect_sound. Qed.
 Print Assumptions C14_occupancy_sound.
@@ -39,14 +39,15 @@ Proof. exact dist_json_roundtrip. Qed.
 Print Assumptions C14_json_roundtrip.
 
 (* thm:C14_intersect_sound. For every set of documents (MIDs below 2^63, any spread: minutes,
-   days, far past, future), every creation time and every query [qf, qt] containing a document:
+   days, far past, future), every creation time and every query [qf, qt] containing a document
+   (query ends over all uint64, e.g. qt = MaxUint64 = "no upper bound"):
    the fraction is kept - while active (borders only), after sealing (distribution built when the
    oldest document is >= 10 min older than the creation time, window clipped to 24 h, stub ID
    included), and after the Info went through Save / Load (index header, .frac-cache), which
    restores it unchanged. *)
 Theorem C14_intersect_sound : forall creation docs m qf qt,
   is_u64 creation -> docs_ok docs -> In m docs ->
-  0 <= qf -> qf <= m -> m <= qt -> qt < two63 ->
+  0 <= qf -> qf <= m -> m <= qt ->
   info_is_intersecting (active_info creation docs) qf qt = true /\
   info_is_intersecting (sealed_info creation docs) qf qt = true /\
   info_roundtrip (sealed_info creation docs) = Some (sealed_info creation docs).
@@ -78,16 +79,17 @@ Print Assumptions C14_lid_borders_exact.
    examining every document of every fraction would: same documents, same order, for every list
    of fractions (active or sealed, any creation time, any spread of document times). *)
 Theorem C14_pruning_is_optimisation : forall fs qf qt,
-  Forall frac_ok fs -> 0 <= qf -> qt < two63 ->
+  Forall frac_ok fs -> 0 <= qf ->
   (qf = 0 -> forall f, In f fs -> ~ In (0, 0) (f_ids f)) ->
   pruned_scan fs qf qt = Some (full_scan fs qf qt).
 Proof. exact pruning_is_optimisation. Qed.
 Print Assumptions C14_pruning_is_optimisation.
 
 (* Fetch side (groupIDsByFraction): the fraction that stores a requested document survives
-   FilterInRange(min, max) of the requested IDs and answers Contains(mid) = true. *)
+   FilterInRange(min, max) of the requested IDs (also when the request names IDs with MID >= 2^63,
+   hi = MaxUint64) and answers Contains(mid) = true. *)
 Theorem C14_fetch_candidates_sound : forall f x lo hi,
-  frac_ok f -> In x (f_ids f) -> 0 <= lo -> lo <= fst x -> fst x <= hi -> hi < two63 ->
+  frac_ok f -> In x (f_ids f) -> 0 <= lo -> lo <= fst x -> fst x <= hi ->
   info_is_intersecting (f_info f) lo hi = true /\
   info_is_intersecting (f_info f) (fst x) (fst x) = true.
 Proof. exact fetch_candidates_sound. Qed.
@@ -147,19 +149,26 @@ Proof.
   vm_compute. discriminate.
 Qed.
 
-(* The hypothesis qt < 2^63 is necessary: with the query end at MaxUint64 ("no upper bound", as
-   tests/setup/env.go searches) and the start inside the distribution window, midToIndex(to) = 0
-   (int64(to) = -1 lies before the window) and the occupancy test rejects a fraction whose
-   document lies in the range. Reproduced on the real code by the driver (class
-   info-witness-to>=2^63: implementation and model agree on `false`). *)
-Example C14_query_end_above_int63_refuted :
+(* Finding repaired by 6d376ea, kept as documentation: with midToIndex as it WAS (int64(mid)
+   without the guard) a query end at MaxUint64 ("no upper bound", as tests/setup/env.go searches)
+   with the start inside the window got index 0, the occupancy test ran with left > right and
+   rejected a fraction whose document lies in the range. *)
+Example C14_query_end_above_int63_v0_refuted :
   let c := 1750000000000 in
-  let docs := [c - 3600000] in
-  is_u64 c /\ docs_ok docs /\ c - 3600000 <= c - 3600000 <= u64max /\
-  info_is_intersecting (sealed_info c docs) (c - 3600000) u64max = false.
+  let m := c - 3600000 in
+  let d := fold_left dist_add_v0 [stub_mid; m] (dist_new m c bucket_ns) in
+  dist_wf (dist_new m c bucket_ns) /\ m <= m <= u64max /\
+  dist_is_intersecting_v0 d m u64max = false.
 Proof.
-  cbv zeta. split; [unfold is_u64, two64; split; [discriminate|reflexivity]|].
-  split. { intros x [<-|[]]; unfold two63; split; try discriminate; reflexivity. }
+  cbv zeta. split.
+  { apply dist_new_wf; [intro H; discriminate H|reflexivity]. }
   split. { unfold u64max, two64. split; [apply Z.le_refl|discriminate]. }
   vm_compute. reflexivity.
 Qed.
+
+(* the same query on the repaired model (regression witness of the driver, class
+   info-regression-to>=2^63) *)
+Example C14_query_end_above_int63_repaired :
+  let c := 1750000000000 in
+  info_is_intersecting (sealed_info c [c - 3600000]) (c - 3600000) u64max = true.
+Proof. vm_compute. reflexivity. Qed.
